@@ -652,6 +652,8 @@ class Folder:
             return self.from_resolution(r, node, mod)
         if isinstance(o, ExtRef):
             return ExtRef(f'{o.dotted}.{name}')
+        if isinstance(o, tuple) and name in getattr(type(o), '_fields', ()):
+            return getattr(o, name)
         if isinstance(o, Inst):
             n2 = name
             if n2 in o.attrs:
@@ -765,6 +767,17 @@ class Folder:
                     f'folding: {f!r}() takes no arguments at {mod.loc(e)} '
                     '(TypeError at run time)')
             return inst
+        if isinstance(f, ExtRef) and f.dotted in (
+                'collections.namedtuple', 'namedtuple') and len(
+                    args) == 2 and isinstance(args[0], str):
+            # a plain record type: modelled by the real thing
+            import collections as _c
+            fields = args[1]
+            if isinstance(fields, str):
+                fields = fields.replace(',', ' ').split()
+            return ('ntclass', _c.namedtuple(args[0], list(fields)))
+        if isinstance(f, tuple) and len(f) == 2 and f[0] == 'ntclass':
+            return f[1](*args, **kwargs)
         if isinstance(f, ExtRef):
             if f.dotted.startswith('logging.') or self.ignore_calls(
                     f.dotted):
